@@ -63,7 +63,7 @@ ANNS = ["int", "'Fwd'", "ClassVar[int]", "typing.ClassVar[int]", "list[int]", "i
 SIGS = ["", "u", "u, v=1", "*args, **kw", "u: int = 2, /, v: 'T' = None, *, w"]
 SIGS_ML = [["", "    u,", "    v=1,", ""], ["", "    *args,", ""]]  # rendered as "(" + lines + ")"
 RETS = [None, "int", "'T'"]
-TAILS = ["pass", "...", "return 1", "local", "nested", "inline", "nested_ovl"]
+TAILS = ["pass", "...", "return 1", "local", "nested", "inline", "nested_ovl", "selfattr", "nested_init"]
 BASES = ["", "()", "(Base)", "(pkg.Base, metaclass=Meta)", "ML"]
 CONDS = ["cond", "sys.version_info >= (3, 9)", "not flag", "a"]
 IMPORT_MODULES = ["os", "sys", "os.path", "pkg.sub", "pkg.sub.deep", "collections.abc", "json"]
@@ -194,7 +194,7 @@ def _istmt(depth: int):
         st.fixed_dictionaries({"k": st.just("sassign"), "attrs": st.lists(_names(), min_size=1, max_size=2), "value": _value()}),
         st.fixed_dictionaries({"k": st.just("sassign"), "attrs": st.lists(_names(), min_size=1, max_size=2), "value": _value()}),
         st.fixed_dictionaries({"k": st.just("sann"), "attr": _names(), "ann": st.integers(0, len(ANNS) - 1), "value": st.one_of(st.none(), _value())}),
-        st.fixed_dictionaries({"k": st.sampled_from(["local", "sdeep", "other", "stuple"]), "attrs": st.lists(_names(), min_size=2, max_size=2)}),
+        st.fixed_dictionaries({"k": st.sampled_from(["local", "sdeep", "other", "stuple", "sall"]), "attrs": st.lists(_names(), min_size=2, max_size=2)}),
         _str(),
         # definitions nested in __init__: not module/class-level bindings (Griffe nevertheless walks them)
         st.fixed_dictionaries({"k": st.just("idef"), "form": st.sampled_from(["def", "ovl", "class", "import", "prop", "decorated"]), "attrs": st.lists(_names(), min_size=2, max_size=2)}),
@@ -226,7 +226,22 @@ def _def(scope: str):
         }
     )
     if scope != "cls":
-        return plain
+        # a module-level function that happens to be called __init__ (e.g. grafted onto a class later): its `self.x = ...`
+        # statements bind nothing at module level
+        stray_init = st.fixed_dictionaries(
+            {
+                "k": st.just("def"),
+                "name": st.just("__init__"),
+                "async": st.just(False),
+                "decs": st.just([]),
+                "sig": st.integers(0, len(SIGS) + len(SIGS_ML) - 1),
+                "ret": st.integers(0, 1),
+                "doc": _opt(_doc(), 3),
+                "tail": st.integers(0, 2),
+                "init": _init_block(1),
+            }
+        )
+        return weighted((plain, 5), (stray_init, 1))
     # methods whose decorators come from the label tables (property, cached_property, staticmethod ...)
     labelled = st.fixed_dictionaries(
         {
@@ -309,7 +324,8 @@ def _stmt(scope: str, depth: int, direct: bool, rel: int):
     elif scope == "mod":
         simple += [_all()]  # (re-)assignment of __all__ inside a block: exports must follow the surviving binding
     if scope == "cls":
-        simple += [_prop()]
+        # a class-level __all__ is an ordinary attribute: it exports nothing (exported = listed in the parent *module*'s __all__)
+        simple += [_prop(), _all()]
     if depth <= 0:
         out = st.one_of(*simple)
         _CACHE[key] = out
@@ -485,7 +501,7 @@ class _R:
     def deflines(self, s: dict, ind: str, scope: str, decs_extra: list[str] | None = None, force_stub: bool = False) -> list[str]:
         out = list(decs_extra or []) + self.dec_lines(s["decs"], ind, s["name"])
         kw = "async def" if s["async"] else "def"
-        first = "self" if scope == "cls" else ""
+        first = "self" if scope == "cls" or s["name"] == "__init__" else ""
         sig_i = s["sig"]
         ret = RETS[s["ret"]]
         arrow = f" -> {ret}" if ret else ""
@@ -500,7 +516,7 @@ class _R:
             header.extend(f"{ind}{x}" for x in ml[1:-1])
             header.append(f"{ind}){arrow}:")
         tail = TAILS[s["tail"]]
-        is_init = scope == "cls" and s["name"] == "__init__"
+        is_init = s["name"] == "__init__"
         if force_stub:
             header[-1] += " ..."
             return out + header
@@ -517,6 +533,10 @@ class _R:
             body.extend([f"{ind2}a = 1", f"{ind2}b: int = 2", f'{ind2}"""not an attribute docstring"""'])
         elif tail == "nested":
             body.extend([f"{ind2}def a():", f"{ind2}    c = 3", f"{ind2}class B:", f"{ind2}    x = 4", f"{ind2}import os"])
+        elif tail == "selfattr":  # only __init__ of a class creates instance attributes
+            body.extend([f"{ind2}self.a = 1", f"{ind2}self.b: int = 2", f'{ind2}"""not an attribute docstring"""', f"{ind2}self.__all__ = ['a']"])
+        elif tail == "nested_init":  # a function called __init__ that is not a method of a class
+            body.extend([f"{ind2}def __init__(self):", f"{ind2}    self.a = 1", f"{ind2}    self.c: int = 2", f"{ind2}return __init__"])
         elif tail == "nested_ovl":
             self.need("import typing")
             body.extend([f"{ind2}@typing.overload", f"{ind2}def a(q): ...", f"{ind2}def a(q):", f"{ind2}    return q"])
@@ -554,6 +574,8 @@ class _R:
             return [f"{ind}other.{s['attrs'][0]} = 1"]
         if k == "stuple":
             return [f"{ind}self.{s['attrs'][0]}, self.{s['attrs'][1]} = 1, 2"]
+        if k == "sall":  # an instance attribute that happens to be called __all__: exports nothing
+            return [f"{ind}self.__all__ = [{s['attrs'][0]!r}, {s['attrs'][1]!r}]"]
         if k == "str":
             return render_doc(s["doc"], ind)
         ind2 = ind + IND
@@ -561,7 +583,7 @@ class _R:
             a, b = s["attrs"]
             form = s["form"]
             if form == "def":
-                return [f"{ind}def {a}(q):", f"{ind2}{b} = 1", f"{ind2}self.{b} = 2"]
+                return [f"{ind}def {a}(q):", f"{ind2}{b} = 1", f"{ind2}self.{b} = 2", f"{ind}def __init__(self2):", f"{ind2}self.{b} = 3", f"{ind2}self2.{a} = 3"]
             if form == "ovl":
                 self.need("import typing")
                 return [f"{ind}@typing.overload", f"{ind}def {a}(q): ...", f"{ind}def {a}(q):", f"{ind2}return q"]
